@@ -94,6 +94,9 @@ func (w *c25world) life(d *memdisk.Disk, p c25prod, logical c25state, nOps int, 
 				return script, err
 			}
 			k, v := []byte{byte('a' + r.Intn(nKeys))}, []byte{byte('A' + op%26), byte(*w.nFlush)}
+			if !w.big && r.Intn(8) == 0 {
+				v = []byte{} // an empty value is a value
+			}
 			if w.big && r.Intn(4) != 0 {
 				v = append(v, make([]byte, 60000)...)
 			}
@@ -119,12 +122,16 @@ func (w *c25world) life(d *memdisk.Disk, p c25prod, logical c25state, nOps int, 
 				b = open[n].NewBatch()
 				kept[n] = b
 			}
+			emptyBatch := !w.big && r.Intn(6) == 0 // a batch made of nothing but puts of empty values
 			for j := 0; j < 2+r.Intn(2); j++ {
 				k, v := []byte{byte('a' + r.Intn(4))}, []byte{byte('a' + op%26), byte(j)}
+				if emptyBatch {
+					v = []byte{}
+				}
 				if w.big {
 					v = append(v, make([]byte, 60000)...) // several of these exceed the ideal batch size: a flush is split into batches
 				}
-				if r.Intn(4) == 0 {
+				if r.Intn(4) == 0 && !emptyBatch {
 					b.Delete(k)
 					delete(logical[n], string(k))
 				} else {
